@@ -450,6 +450,9 @@ def main():
     vals.append(("J", sorted(set(K.gen_elems(hlib.Rng(5), "J", 4000)))))
     for n in (255, 256):
         vals.append(("L", [("U1", [i % 256]) for i in range(n)]))
+    for cps in K.NUL_TEXTS:
+        vals.append(("A", cps))
+        vals.append(("J", cps))
     vals.append(K.deep_val(rng, 6))
     vals.append(K.deep_val(rng, 40, "A"))
     for t, n in (("B", 65535), ("B", 65536), ("A", 65536), ("U1", 65536), ("BOOLEAN", 65535)):
